@@ -287,6 +287,26 @@ class DeepInliner(Inliner):
                 return prefix, body
         return super()._try(ctx, call, form, taken, origin, stack)
 
+    def _ctor_init(self, ctx: FuncInfo, s: ast.stmt, stack):
+        """(`__init__` FuncInfo, target name) if `s` is `x = RepoClass(args)` with a user-written constructor"""
+        tgt = s.targets[0] if isinstance(s, ast.Assign) and len(s.targets) == 1 else (s.target if isinstance(s, ast.AnnAssign) else None)
+        call = s.value
+        if not isinstance(tgt, ast.Name) or not isinstance(call, ast.Call):
+            return None
+        c_ctx, orig = getattr(call, "_src", None) or (ctx, call)
+        if not isinstance(orig, ast.Call):
+            return None
+        try:
+            ci = self.T.ctor_class(c_ctx, orig)
+        except Exception:  # noqa: BLE001
+            return None
+        if ci is None:
+            return None
+        init = self.repo.lookup_method(ci, "__init__")
+        if init is None or init.is_abstract:
+            return None
+        return init, tgt.id
+
     # ------------------------------------------------------------------ helpers
     def _fresh_tmp(self, base: str, taken: set[str]) -> str:
         cand = base
@@ -445,6 +465,21 @@ class DeepInliner(Inliner):
 
                     body, _t = exit_rewrite(body, drop)
                     out += prefix + body
+                    done = True
+            elif isinstance(s, (ast.Assign, ast.AnnAssign)) and s.value is not None and self._ctor_init(ctx, s, stack) is not None and not getattr(s, "_ctor_done", False):
+                # `x = Helper(args)`: the assignment stays (fields of x are resolved from it), the constructor's statements follow
+                init, target = self._ctor_init(ctx, s, stack)
+                fake = ast.Call(func=ast.Attribute(value=ast.Name(id=target, ctx=ast.Load()), attr="__init__", ctx=ast.Load()), args=s.value.args, keywords=s.value.keywords)
+                ast.copy_location(fake, s.value)
+                got = None
+                if len(stack) <= self.max_depth and init.fq not in stack and self._eligible(ctx, init, "expr"):
+                    got = self._expand(ctx, fake, init, taken, origin, stack)
+                s._ctor_done = True  # type: ignore[attr-defined]
+                if got is not None:
+                    prefix, body = got
+                    body, _t = exit_rewrite(body, lambda ret: [])
+                    s.value._ctor_inlined = True  # type: ignore[attr-defined]
+                    out += [s] + prefix + body
                     done = True
             elif isinstance(s, (ast.Assign, ast.AnnAssign)) and s.value is not None:
                 got = self._try(ctx, s.value, "assign", taken, origin, stack)
